@@ -443,7 +443,7 @@ func TestQuotaExhaustive(t *testing.T) {
 }
 
 func TestQuotaRandomSchedules(t *testing.T) {
-	vkit.Check(t, 2000, 20000, func(t *rapid.T) {
+	vkit.Check(t, 4000, 30000, func(t *rapid.T) {
 		c := Case{Kind: rapid.SampledFrom([]string{"code-quota", "mapping-quota"}).Draw(t, "kind"),
 			Limit: rapid.IntRange(1, 3).Draw(t, "quota"),
 			Tasks: rapid.IntRange(2, 3).Draw(t, "tasks"),
